@@ -17,6 +17,8 @@ import (
 	"net"
 	"net/http"
 	"net/http/httptest"
+	"os"
+	"os/exec"
 	"strings"
 	"sync"
 	"time"
@@ -26,6 +28,7 @@ import (
 	"github.com/brutella/hc/db"
 	"github.com/brutella/hc/event"
 	"github.com/brutella/hc/hap"
+	hclog "github.com/brutella/hc/log"
 	haphttp "github.com/brutella/hc/hap/http"
 	"github.com/brutella/hc/util"
 )
@@ -85,6 +88,7 @@ type accFixture struct {
 	name      string
 	conns     map[string]*hap.Connection
 	raw       map[string]*fakeConn
+	cmu       sync.Mutex
 	paired    int // DevicePaired events seen
 	unpaired  int
 }
@@ -140,6 +144,8 @@ func (f *accFixture) Close() { f.server.Close() }
 
 // Conn returns (creating on first use) the hap connection + session registered for remote address addr.
 func (f *accFixture) Conn(addr string) *hap.Connection {
+	f.cmu.Lock()
+	defer f.cmu.Unlock()
 	if hc, ok := f.conns[addr]; ok {
 		return hc
 	}
@@ -151,6 +157,8 @@ func (f *accFixture) Conn(addr string) *hap.Connection {
 }
 
 func (f *accFixture) CloseConn(addr string) {
+	f.cmu.Lock()
+	defer f.cmu.Unlock()
 	if hcn, ok := f.conns[addr]; ok {
 		hcn.Close()
 		delete(f.conns, addr)
@@ -173,9 +181,22 @@ func (f *accFixture) Do(addr, method, target, ctype string, body []byte) (status
 		req.Header.Set("Content-Type", ctype)
 	}
 	rec := httptest.NewRecorder()
-	msg, pan := safely(func() { f.server.Mux.ServeHTTP(rec, req) })
-	if pan {
-		return 0, nil, nil, "panic: " + msg
+	type res struct {
+		msg string
+		pan bool
+	}
+	done := make(chan res, 1)
+	go func() {
+		msg, pan := safely(func() { f.server.Mux.ServeHTTP(rec, req) })
+		done <- res{msg, pan}
+	}()
+	select {
+	case r := <-done:
+		if r.pan {
+			return 0, nil, nil, "panic: " + r.msg
+		}
+	case <-time.After(10 * time.Second):
+		return 0, nil, nil, "wedged: the handler did not return within 10 s"
 	}
 	return rec.Code, rec.Body.Bytes(), rec.Header(), ""
 }
@@ -231,6 +252,12 @@ type e2eAcc struct {
 	t    hc.Transport
 	port string
 	dir  string
+	// accessory running in a child process (so that a fatal error of the accessory is an observation, not the end of the
+	// harness): cmd, its stdin (closing it stops the child) and the ids it reported
+	cmd      *exec.Cmd
+	stdin    io.WriteCloser
+	exited   chan struct{}
+	aid, iid uint64
 }
 
 func startE2E(dir, pin8 string, snapshot bool, a *accessory.Accessory, as ...*accessory.Accessory) (*e2eAcc, error) {
@@ -256,6 +283,15 @@ func startE2E(dir, pin8 string, snapshot bool, a *accessory.Accessory, as ...*ac
 }
 
 func (e *e2eAcc) Stop() {
+	if e.cmd != nil {
+		e.stdin.Close()
+		select {
+		case <-e.exited:
+		case <-time.After(5 * time.Second):
+			e.cmd.Process.Kill()
+		}
+		return
+	}
 	select {
 	case <-e.t.Stop():
 	case <-time.After(5 * time.Second):
@@ -493,4 +529,57 @@ func responseWritten(ctx hap.Context, raw net.Conn) {
 	ctx.SetSessionForConnection(sess, raw)                      // … so put the real one back
 	tmp.Write(nil)
 	sess.Decrypter() // (pre-repair code promoted here)
+}
+
+// serveAccessory is the child side of startE2EChild.
+func serveAccessory(dir string) {
+	hclog.Info.Disable()
+	sw := accessory.NewSwitch(accessory.Info{Name: "Sw"})
+	sw.Switch.On.OnValueRemoteUpdate(func(bool) {})
+	acc, err := startE2E(dir, "00102003", true, sw.Accessory)
+	if err != nil {
+		fmt.Println("ERROR", err)
+		os.Exit(3)
+	}
+	fmt.Printf("READY %s %d %d\n", acc.port, sw.ID, sw.Switch.On.ID)
+	io.Copy(ioutil.Discard, os.Stdin)
+	acc.Stop()
+}
+
+// startE2EChild starts `drive -serve dir` and waits for its READY line.
+func startE2EChild(dir string) (*e2eAcc, error) {
+	self, err := os.Executable()
+	if err != nil {
+		return nil, err
+	}
+	cmd := exec.Command(self, "-serve", dir)
+	cmd.Stderr = ioutil.Discard
+	stdin, _ := cmd.StdinPipe()
+	out, _ := cmd.StdoutPipe()
+	if err := cmd.Start(); err != nil {
+		return nil, err
+	}
+	e := &e2eAcc{dir: dir, cmd: cmd, stdin: stdin, exited: make(chan struct{})}
+	br := bufio.NewReader(out)
+	line, err := br.ReadString('\n')
+	if err != nil || !strings.HasPrefix(line, "READY ") {
+		cmd.Process.Kill()
+		return nil, fmt.Errorf("child accessory did not start: %q %v", line, err)
+	}
+	fmt.Sscanf(line, "READY %s %d %d", &e.port, &e.aid, &e.iid)
+	go func() { io.Copy(ioutil.Discard, br); cmd.Wait(); close(e.exited) }()
+	return e, nil
+}
+
+// Alive reports whether the child accessory process is still running.
+func (e *e2eAcc) Alive() bool {
+	if e.cmd == nil {
+		return true
+	}
+	select {
+	case <-e.exited:
+		return false
+	default:
+		return true
+	}
 }
